@@ -269,14 +269,14 @@ class TimeStamp(TdmsType):
         self.value = value
         epoch_delta = value - self._tdms_epoch
 
-        seconds = int(epoch_delta / np.timedelta64(1, 's'))
+        # Whole seconds rounded towards negative infinity, using integer division
+        # as float division is inexact for times far from the epoch.
+        seconds = int(epoch_delta // np.timedelta64(1, 's'))
         remainder = epoch_delta - np.timedelta64(seconds, 's')
-        zero_delta = np.timedelta64(0, 's')
-        if remainder < zero_delta:
-            remainder = np.timedelta64(1, 's') + remainder
-            seconds = seconds - 1
         microseconds = int(remainder / np.timedelta64(1, 'us'))
-        second_fractions = int(microseconds * self._fractions_per_microsecond)
+        # Round fractions up, so that truncating when converting back
+        # to microseconds gives the original value.
+        second_fractions = -((-microseconds * 2 ** 64) // 10 ** 6)
         self.bytes = _struct_pack('<Qq', second_fractions, seconds)
 
     @classmethod
